@@ -159,6 +159,9 @@ theorem C19.src_runtime_agent_as_modelled_2 :
       "      a.frames[proc.ID()][i] = frame",
       "      break",
       "  if frame == nil",
+      "    if out != nil",
+      "      a.mu.Unlock()",
+      "      return",
       "    frame = &Frame{ Process: proc, Symbol: sym, InPort: in, OutPort: out, InPck: pck, InTime: time.Now(), }",
       "    a.frames[proc.ID()] = append(a.frames[proc.ID()], frame)",
       "  watchers := a.watchers",
@@ -180,6 +183,9 @@ theorem C19.src_runtime_agent_as_modelled_2 :
       "      a.frames[proc.ID()][i] = frame",
       "      break",
       "  if frame == nil",
+      "    if in != nil",
+      "      a.mu.Unlock()",
+      "      return",
       "    frame = &Frame{ Process: proc, Symbol: sym, InPort: in, OutPort: out, OutPck: pck, OutTime: time.Now(), }",
       "    a.frames[proc.ID()] = append(a.frames[proc.ID()], frame)",
       "  watchers := a.watchers",
